@@ -131,6 +131,47 @@ type c18Case struct {
 	faults []c18Fault
 }
 
+// c18FinalGraph applies a fault sequence that consists of link removals and additions only; ok is
+// false for sequences with router faults or when the result is not connected.
+func c18FinalGraph(cs c18Case) ([][2]int, bool) {
+	cur := map[[2]int]bool{}
+	key := func(a, b int) [2]int {
+		if a > b {
+			a, b = b, a
+		}
+		return [2]int{a, b}
+	}
+	for _, e := range cs.edges {
+		cur[key(e[0], e[1])] = true
+	}
+	for _, f := range cs.faults {
+		switch f.Kind {
+		case "remove-link":
+			delete(cur, key(f.A, f.B))
+		case "add-link":
+			cur[key(f.A, f.B)] = true
+		default:
+			return nil, false
+		}
+	}
+	var out [][2]int
+	for e := range cur {
+		out = append(out, e)
+	}
+	sort.Slice(out, func(i, j int) bool { return out[i][0] < out[j][0] || (out[i][0] == out[j][0] && out[i][1] < out[j][1]) })
+	seen := map[int]bool{0: true}
+	for grew := true; grew; {
+		grew = false
+		for _, e := range out {
+			if seen[e[0]] != seen[e[1]] {
+				seen[e[0]], seen[e[1]] = true, true
+				grew = true
+			}
+		}
+	}
+	return out, len(seen) == cs.n
+}
+
 // c18Execute runs one (graph, faults) case under a schedule seed; returns the next-hop maps at
 // every fixed point (for the tie-break comparison) or nil when a violation / failure stopped it.
 func c18Execute(c *h.Ctx, id string, cs c18Case, schedSeed int64, profile string) []string {
@@ -538,6 +579,22 @@ func c18Run(c *h.Ctx) {
 				} else if fmt.Sprint(ref) != fmt.Sprint(fixed) {
 					c.Violation("C18:tie-break-depends-on-schedule", id, "two delivery orders of the same topology and fault sequence end with different next hops",
 						map[string]any{"graph": fmt.Sprintf("n=%d edges=%v", cs.n, cs.edges), "faults": cs.faults, "first": ref, "this": fixed})
+				}
+			}
+			// the same final topology reached without any history: routers started on the graph that is
+			// left after the link faults must choose the same next hops ("ties broken the same way every
+			// time" - not only for every delivery order, also whatever was there before)
+			if final, ok := c18FinalGraph(cs); ok && ref != nil && len(cs.faults) > 0 {
+				id := fmt.Sprintf("g%d/v%d/fresh", ci, variant)
+				if c.Case(id) {
+					fx := c18Execute(c, id, c18Case{n: cs.n, edges: final}, c.Seed*104729+int64(ci)*37+int64(variant), "fair")
+					if fx != nil {
+						c.Count("fresh_convergence_comparisons", 1)
+						if fx[len(fx)-1] != ref[len(ref)-1] {
+							c.Violation("C18:tie-break-depends-on-history", id, "routers that went through link faults end with other next hops than routers started on the resulting topology",
+								map[string]any{"graph": fmt.Sprintf("n=%d edges=%v", cs.n, cs.edges), "faults": cs.faults, "final_edges": final, "after_faults": ref[len(ref)-1], "fresh": fx[len(fx)-1]})
+						}
+					}
 				}
 			}
 		}
